@@ -455,7 +455,7 @@ fn run_on(rep: &Report, reg: Vec<TypeEntry>, full: bool) -> BTreeSet<String> {
     install_monitors(if thorough { 60 } else { 30 });
     let tp = tier_params(thorough);
     rep.set_rule(&format!(
-        "byte strings per streamable type (both decoders each): bases = encodings found by the C13 value explorer (builder driven by an all-zero tape with <= 1{} deviations, one encoding per distinct length for the {} shortest lengths, zero-seed BLS points replaced by the identity; the first {} also unreplaced) + hand-written letters (v1/v2 proofs of space, v0/v1 blocks, packed Options) + raw adversarial letters (1e5 x ff and a 1e5-deep left spine in Program and inside a FullBlock, back references, over-long atom length prefixes, ffffffff at each Vec nesting level, 1 MiB generator buffer, invalid UTF-8, non-canonical BLS encodings); per base every single-byte substitution at every position by {{00,01,02,03,7f,80,fe,ff, old^80, old^40, old^20, old^01}} (all 255 for bases <= {} bytes), every 4-byte window := {{2^32-1, 0, 2^31, 2^21+1, old+1, old-1}}, every proper prefix, one appended byte {{00,ff}}. distinct = distinct (type, base encoding) pairs",
+        "byte strings per streamable type (both decoders each): bases = encodings found by the C13 value explorer (builder driven by an all-zero tape with <= 1{} deviations, one encoding per distinct length for the {} shortest lengths, also of values that are not well-formed, zero-seed BLS points replaced by the identity; the first {} also unreplaced) + hand-written letters (v1/v2 proofs of space, v0/v1 blocks, packed Options) + raw adversarial letters (1e5 x ff and a 1e5-deep left spine in Program and inside a FullBlock, back references, over-long atom length prefixes, ffffffff at each Vec nesting level, 1 MiB generator buffer, invalid UTF-8, non-canonical BLS encodings); per base every single-byte substitution at every position by {{00,01,02,03,7f,80,fe,ff, old^80, old^40, old^20, old^01}} (all 255 for bases <= {} bytes), every 4-byte window := {{2^32-1, 0, 2^31, 2^21+1, old+1, old-1}}, every proper prefix, one appended byte {{00,ff}}. distinct = distinct (type, base encoding) pairs",
         if thorough { " or 2" } else { "" },
         tp.base.max_lengths, tp.base.raw_bls_bases, tp.full_alphabet_max_len
     ));
